@@ -125,7 +125,7 @@ Inductive fstep_shape (fs : fstate) : fevent -> fstate -> Prop :=
     f_aborted fs = false -> ph (fb fs) n = ExQ was ->
     fstep_shape fs (ExX n) (with_base fs (set_ph (fb fs) n Dead))
 | fs_sfx n :
-    f_aborted fs = false -> (ph (fb fs) n = MF1 \/ exists sk, ph (fb fs) n = F1 sk) ->
+    f_aborted fs = false -> (ph (fb fs) n = MF1 \/ (exists sk, ph (fb fs) n = F1 sk) \/ ph (fb fs) n = MtF1) ->
     fstep_shape fs (SFX n) (with_base fs (set_ph (fb fs) n Dead))
 | fs_pux n ref stored sk rd :
     f_aborted fs = false -> ref = root_refpush c n -> ph (fb fs) n = Pushing sk rd ->
@@ -141,6 +141,12 @@ Inductive fstep_shape (fs : fstate) : fevent -> fstate -> Prop :=
     fstep_shape fs (TagX n set)
       (with_base fs (mkState (upd (ph (fb fs)) n Dead) (dst (fb fs)) (cached (fb fs))
                              (if set then Some n else tag (fb fs)) None))
+| fs_mtx n stored :
+    f_aborted fs = false -> (ph (fb fs) n = Mounting \/ ph (fb fs) n = MtC) ->
+    fstep_shape fs (MtX n stored)
+      (with_base fs (mkState (upd (ph (fb fs)) n Dead)
+                             (if stored && negb (has g (dst (fb fs)) n) then n :: dst (fb fs) else dst (fb fs))
+                             (cached (fb fs)) (tag (fb fs)) None))
 | fs_prook :
     f_aborted fs = false -> f_started fs = false -> fstep_shape fs ProOk fs
 | fs_prox :
@@ -152,7 +158,7 @@ Lemma fstep_inv fs fe fs' : fstep g c ext fs fe = Some fs' ->
 Proof.
   unfold fstep. intro H.
   destruct (returned (fb fs)) eqn:Hr; [discriminate|]. split; [reflexivity|].
-  destruct fe as [e|n|n|n ref stored|n set| | |].
+  destruct fe as [e|n|n|n ref stored|n set|n stored| | |].
   - destruct e;
       try (destruct (f_aborted fs) eqn:Hab; [discriminate|];
            cbv iota beta in H;
@@ -189,6 +195,9 @@ Proof.
     destruct (ph (fb fs) n) eqn:Hp; try discriminate.
     injection H as <-. eapply fs_tagx; eauto.
   - destruct (f_aborted fs) eqn:Hab; [discriminate|].
+    destruct (ph (fb fs) n) eqn:Hp; try discriminate;
+    injection H as <-; eapply fs_mtx; eauto.
+  - destruct (f_aborted fs) eqn:Hab; [discriminate|].
     destruct (f_started fs) eqn:Hst; [discriminate|].
     injection H as <-. now apply fs_prook.
   - destruct (f_aborted fs) eqn:Hab; [discriminate|].
@@ -208,7 +217,7 @@ Proof.
   - now apply inv_ret.
   - eapply step_preserves_inv; eauto.
   - apply inv_kill; auto; congruence.
-  - apply inv_kill; auto; destruct H0 as [H0|[sk H0]]; congruence.
+  - apply inv_kill; auto; destruct H0 as [H0|[[sk H0]|H0]]; congruence.
   - rewrite <- Hr. apply inv_fault; auto; try congruence.
     + destruct (stored && negb (has g (dst (fb fs)) n)) eqn:E; [|now left].
       right. apply andb_true_iff in E as [_ E]. apply negb_true_iff in E.
@@ -226,6 +235,12 @@ Proof.
     destruct set; [|now left]. right. split; [reflexivity|].
     assert (Ht : root_tagger c n = true) by (apply (i_tagging _ _ _ _ I); rewrite H0; reflexivity).
     now apply root_tagger_root in Ht.
+  - (* MtX *)
+    rewrite <- Hr. apply inv_fault; auto; try (destruct H0; congruence).
+    destruct (stored && negb (has g (dst (fb fs)) n)) eqn:E; [|now left].
+    right. apply andb_true_iff in E as [_ E]. apply negb_true_iff in E.
+    split; [reflexivity|]. split; [|assumption].
+    destruct H0 as [H0|H0]; rewrite H0; reflexivity.
 Qed.
 
 Lemma frun_inv tr : forall fs fs', Inv (fb fs) -> frun g c ext fs tr = Some fs' -> Inv (fb fs').
@@ -377,6 +392,8 @@ Proof.
     intros x Hxd. cbn [ph]. now apply upd_dead_keeps.
   - right. right. eapply any_dead_mono; [|exact Ht].
     intros x Hxd. cbn [ph]. now apply upd_dead_keeps.
+  - right. right. eapply any_dead_mono; [|exact Ht].
+    intros x Hxd. cbn [ph]. now apply upd_dead_keeps.
 Qed.
 
 Lemma cbfail_dead st k n st' : step g c st (CbFail k n) = Some st' ->
@@ -402,13 +419,16 @@ Proof.
   - rewrite (any_dead_intro (set_ph (fb fs) n Dead) n); [apply orb_true_r | | cbn [set_ph ph]; apply upd_same].
     apply (i_bound _ _ _ _ I). congruence.
   - rewrite (any_dead_intro (set_ph (fb fs) n Dead) n); [apply orb_true_r | | cbn [set_ph ph]; apply upd_same].
-    apply (i_bound _ _ _ _ I). destruct H0 as [H0|[sk H0]]; congruence.
+    apply (i_bound _ _ _ _ I). destruct H0 as [H0|[[sk H0]|H0]]; congruence.
   - match goal with |- context [any_dead g ?s] =>
       rewrite (any_dead_intro s n); [apply orb_true_r | | cbn [ph]; apply upd_same] end.
     apply (i_bound _ _ _ _ I). congruence.
   - match goal with |- context [any_dead g ?s] =>
       rewrite (any_dead_intro s n); [apply orb_true_r | | cbn [ph]; apply upd_same] end.
     apply (i_bound _ _ _ _ I). congruence.
+  - match goal with |- context [any_dead g ?s] =>
+      rewrite (any_dead_intro s n); [apply orb_true_r | | cbn [ph]; apply upd_same] end.
+    apply (i_bound _ _ _ _ I). destruct H0; congruence.
 Qed.
 
 Lemma step_returned st e st' : step g c st e = Some st' -> (forall b, e <> Ret b) ->
